@@ -78,6 +78,7 @@ type Plan struct {
 	Steps         []string     `json:"steps,omitempty"` // replay: labels to take (lenient)
 	MaxSteps      int          `json:"max_steps"`
 	ConvFail      bool         `json:"conv_fail,omitempty"`    // converter transient failures
+	ConvNoExec    string       `json:"conv_noexec,omitempty"`  // this converter's file is executable but cannot be started (its interpreter does not exist)
 	ConvDie       bool         `json:"conv_die,omitempty"`     // converter exits in the middle of its input after printing one line (once per stream version)
 	ConvGarble    bool         `json:"conv_garble,omitempty"`  // converter breaks the protocol once per stream version (one malformed line, then a normal answer)
 	MergeFail     bool         `json:"merge_fail,omitempty"`   // disk error: creating the merged index file fails (every merge)
@@ -263,6 +264,9 @@ func Gen(prop, tier string, seed, run uint64) Plan {
 		p.ConvFail = useConv && r.IntN(3) == 0
 		p.ConvGarble = useConv && !p.ConvFail && r.IntN(4) == 0
 		p.ConvDie = useConv && !p.ConvFail && !p.ConvGarble && !storm && (wantDie || r.IntN(6) == 0)
+		if (prop == "C09" || prop == "C20") && len(p.Converters) > 0 && !storm && r.IntN(6) == 0 {
+			p.ConvNoExec = p.Converters[len(p.Converters)-1]
+		}
 	}
 	if prop == "C09" || prop == "C13" {
 		p.MergeFail = r.IntN(5) == 0
@@ -468,7 +472,19 @@ func Gen(prop, tier string, seed, run uint64) Plan {
 			if len(p.Converters) > 0 && r.IntN(2) == 0 {
 				mutOps = append(mutOps, Op{C: CMut, K: "ResetConv", Conv: p.Converters[r.IntN(len(p.Converters))]})
 			} else {
-				mutOps = append(mutOps, Op{C: CMut, K: []string{"Status", "ListConverters", "ListTags", "KnownPcaps", "ListEndpoints"}[r.IntN(5)]})
+				o := Op{C: CMut, K: []string{"Status", "ListConverters", "ListTags", "KnownPcaps", "ListEndpoints", "ConvStderr", "PrefetchPage"}[r.IntN(7)]}
+				if o.K == "ConvStderr" {
+					if len(p.Converters) == 0 {
+						o.K = "ListConverters"
+					} else {
+						o.Conv = p.Converters[r.IntN(len(p.Converters))]
+					}
+				}
+				if o.K == "PrefetchPage" {
+					// the first page of a result list with every tag prefetched, as the UI asks for it
+					o.Def = []string{"sort:id limit:1", "sort:-id limit:2", "sort:sport limit:1"}[r.IntN(3)]
+				}
+				mutOps = append(mutOps, o)
 			}
 		}
 	}
